@@ -87,7 +87,8 @@ def run(ctx):
 
     # ---- every write of Order.price and every constructor call, judged on the INLINED views of the public
     #      entries of the book (private helpers spliced in, so the guards of the whole call path are visible)
-    ctors = [f for f in ctx.prog.find(crate="bourse_book", adt="Order") if "-> bourse_book::types::Order" in f.sig and f.impl_trait is None]
+    ctors = [f for f in ctx.prog.find(crate="bourse_book", adt="Order") if "-> bourse_book::types::Order" in f.sig and f.impl_trait is None and f.pub]
+    ctor_helpers = {f.path for f in ctx.prog.find(crate="bourse_book", adt="Order") if "-> bourse_book::types::Order" in f.sig and f.impl_trait is None and not f.pub}
     n = 0
     covered = set()
     for f in m.book_pub_fns():
@@ -105,6 +106,18 @@ def run(ctx):
                 r = grid_ok(q, a, c.rguards)
                 ctx.check(r is not None, "grid", "%s|ctor|%s" % (f.short(), c.name), c.loc(), "via %s: %s(price = %s) on the tick grid: %s" % (f.name, c.name, render(a), r),
                           "via %s: %s called with price %s that is not checked against the tick size" % (f.name, c.name, render(a)))
+        # Order literals built directly inside the (inlined) entry – e.g. through a private shared initialiser
+        from analysis.origin import strip
+        for blk in q.fn.body.blocks:
+            if blk.cleanup:
+                continue
+            for i, st in enumerate(blk.stmts):
+                if st.k == "assign" and st.rv.k == "agg" and st.rv.j.get("ak") == "adt" and (st.rv.j.get("adt") or "").endswith("types::Order") and "price" in st.rv.j.get("fields", []):
+                    n += 1
+                    a = strip(q.ev.operand(st.rv.ops[st.rv.j["fields"].index("price")], (blk.i, i)))
+                    r = grid_ok(q, a, q.cfg.guards_refined(blk.i))
+                    ctx.check(r is not None, "grid", "%s|literal" % f.short(), q.loc(st.sp), "via %s: Order{price: %s} on the tick grid: %s" % (f.name, render(a), r),
+                              "via %s: an Order is built with price %s that is not checked against the tick size" % (f.name, render(a)))
     # every price writer / limit-constructor caller in the crate is attributed to some public entry
     for f in book_fns:
         if f.impl_trait is not None and "Deserialize" in (f.impl_trait or ""):
@@ -115,7 +128,7 @@ def run(ctx):
             ctx.bad("grid", "unattributed|" + f.short(), ctx.loc(f), "%s writes an order price but is not reachable (through private helpers) from a public OrderBook entry the grid analysis covers" % f.short())
     for f in ctors:
         if "price" not in f.params:
-            r = m.q(f).ret()
+            r = m.qi(f).ret()
             if r[0] == "agg":
                 pv = dict(zip(r[4], r[3])).get("price")
                 want_max = "buy" in f.name
